@@ -2,7 +2,9 @@ package netsim
 
 import (
 	"fmt"
+	"github.com/kardiachain/go-kardia/lib/common"
 	"github.com/kardiachain/go-kardia/mainchain/genesis"
+	"math/big"
 	"os"
 	"strings"
 	"time"
@@ -89,6 +91,20 @@ func RandomCase(c *core.Case, prop string, maxN int, prefixMax int) {
 			run.Inconclusive("network start failed: " + err.Error())
 		}
 		return
+	}
+	if r.Intn(8) == 0 {
+		// one transaction larger than a block part in every correct node's pool: some block of this case has several
+		// parts, every non-final one of exactly the part size
+		k := net.Keys[0]
+		payload := make([]byte, 70000+r.Intn(40000))
+		for _, n := range net.Alive() {
+			nonce := n.Pool.Nonce(net.Addrs[0])
+			if tx, err := types.SignTx(types.HomesteadSigner{}, types.NewTransaction(nonce, common.HexToAddress("0xbeef"), big.NewInt(7), uint64(50000+len(payload)*20), big.NewInt(1), payload), k); err == nil {
+				n.Pool.AddLocal(tx)
+			}
+		}
+		cfg.Label += " big-tx"
+		run.Count("cases_with_a_transaction_larger_than_one_block_part", 1)
 	}
 	net.AllowRestarts = restarts
 	adv := NewAdversary(net)
